@@ -533,9 +533,11 @@ def install(reg):
         st.assume(z3.Or(z3.And(a <= r, r <= b), z3.And(b <= r, r <= a)))
         return [(st, VReal(r))]
 
+    reg.externals['random.Random.uniform'] = _uniform
+
     @ext('functools.partial')
     def _partial(ex, st, args, kw, node):
-        return [(st, VFunc('partial', func=args[0], args=args[1:], kwargs=kw))]
+        return [(st, ex.register_callable(st, VFunc('partial', func=args[0], args=args[1:], kwargs=kw)))]
 
     @ext('builtins.callable')
     def _callable(ex, st, args, kw, node):
